@@ -1,4 +1,5 @@
 import Driver.C08
+import Driver.C15
 import Driver.C01
 open ImmuModel
 
@@ -6,6 +7,7 @@ namespace Driver
 
 structure State where
   c08 : C08.St := {}
+  c15 : C15.St := {}
   c01 : C01.St := {}
 
 def step (st : State) (line : String) : State × String :=
@@ -15,6 +17,7 @@ def step (st : State) (line : String) : State × String :=
   | "c01" :: "hist.add" :: rest => let (s, o) := C01.stepSt st.c01 ("hist.add" :: rest); ({ st with c01 := s }, o)
   | "c01" :: "dproof" :: rest => let (s, o) := C01.stepSt st.c01 ("dproof" :: rest); ({ st with c01 := s }, o)
   | "c01" :: rest => (st, C01.step rest)
+  | "c15" :: rest => let (s, o) := C15.step st.c15 rest; ({ st with c15 := s }, o)
   | ["sha", h] => (st, match Bytes.ofHex h with | some b => Bytes.toHex (Sha256.sum b) | none => "bad-op")
   | _ => (st, "bad-op")
 
